@@ -1,0 +1,46 @@
+//go:build verif
+
+package pals
+
+import "github.com/biogo/store/interval"
+
+// Contracts for the deductive verifier in /verif (govc). Only compiled with -tags verif.
+// The piler itself (maps keyed by interfaces, the external interval tree, closures) is outside the verifier's
+// subset; what is proved here is the link predicate the piles are built from.
+
+// Overlap: with slack o, an interval links to a query range when they share at least o positions; with zero
+// slack that is "overlap or abut".
+//@ func (*pileInterval).Overlap
+//@   property C16
+//@   requires i != nil
+//@   ensures result == (i.end - i.overlap >= b.Start && i.start <= b.End - i.overlap)
+//@   assigns nothing
+
+//@ func (*pileInterval).Range
+//@   property C16
+//@   requires i != nil
+//@   ensures result.Start == i.start + i.overlap && result.End == i.end - i.overlap
+//@   assigns nothing
+
+// The link between two stored intervals is symmetric, and with zero slack it is exactly "the closed
+// intervals [start,end] intersect", i.e. the half-open features overlap or abut.
+//@ func verifLemmaLinkSymmetric
+//@   property C16
+//@   lemma
+//@   requires x != nil && y != nil && x.overlap == y.overlap
+//@   ensures xy == yx
+//@   ensures x.overlap == 0 ==> xy == (x.start <= y.end && y.start <= x.end)
+func verifLemmaLinkSymmetric(x, y *pileInterval) (xy, yx bool) {
+	return x.Overlap(y.Range()), y.Overlap(x.Range())
+}
+
+var _ interval.IntRange
+
+//@ func min
+//@   property C16
+//@   pure
+//@   ensures result <= a && result <= b && (result == a || result == b)
+//@ func max
+//@   property C16
+//@   pure
+//@   ensures result >= a && result >= b && (result == a || result == b)
